@@ -464,6 +464,95 @@ def rule_tlist(repo: Repo, rep: Report, classes: List[ClassInfo]) -> int:
     return n + 1
 
 
+def rule_index_broadcast(repo: Repo, rep: Report, classes: List[ClassInfo]) -> int:
+    """Index tensors used together in one subscript broadcast against each other: a (m, 1) row index (what
+    `torch.nonzero(..., as_tuple=False)` returns) next to a (m,) column index addresses the m x m cross product, so every
+    selected row is touched at the positions computed for *all* selected rows - the result for one batch member then
+    depends on the other members.  Ranks are inferred (rank domain of C10 extended by nonzero / tensor subscripts); a site
+    is reported only when the ranks of two index tensors are both derived and differ."""
+    from .c10 import Rank
+
+    class IRank(Rank):
+        def __init__(self, fi):
+            super().__init__(fi)
+            self.sites: Dict[int, tuple] = {}
+
+        def eval_Call(self, node, env):
+            name = call_name(node) or ""
+            short = name.split(".")[-1]
+            if short == "nonzero":
+                for a in node.args:
+                    self.eval(a, env)
+                kw = {k.arg: k.value for k in node.keywords if k.arg}
+                at = kw.get("as_tuple")
+                if at is None or (isinstance(at, ast.Constant) and at.value is False):
+                    return 2
+                return None
+            if short in ("arange", "randperm"):
+                return 1
+            if short in ("view", "reshape") and isinstance(node.func, ast.Attribute) and not name.startswith("torch."):
+                self.eval(node.func.value, env)
+                dims = node.args
+                if len(dims) == 1 and isinstance(dims[0], (ast.Tuple, ast.List)):
+                    dims = dims[0].elts
+                if dims and not any(isinstance(d, ast.Starred) for d in dims) and not (len(dims) == 1 and isinstance(dims[0], ast.Name)):
+                    return len(dims)
+                return None
+            return super().eval_Call(node, env)
+
+        def _index_ranks(self, node, env):
+            elts = node.slice.elts if isinstance(node.slice, ast.Tuple) else [node.slice]
+            out = []
+            for e in elts:
+                if isinstance(e, ast.Slice):
+                    out.append(("slice", None))
+                elif isinstance(e, ast.Constant) and e.value is None:
+                    out.append(("new", None))
+                elif isinstance(e, ast.Constant) and e.value is Ellipsis:
+                    out.append(("ellipsis", None))
+                else:
+                    r = self.eval(e, env)
+                    out.append(("idx", r if isinstance(r, int) else None))
+            return out
+
+        def eval_Subscript(self, node, env):
+            base = self.eval(node.value, env)
+            if isinstance(base, tuple):
+                return super().eval_Subscript(node, env)
+            ks = self._index_ranks(node, env)
+            tens = [(i, r) for i, (k, r) in enumerate(ks) if k == "idx" and isinstance(r, int) and r >= 1]
+            if len(tens) >= 2:
+                self.sites[id(node)] = (node, [r for _, r in tens])
+            if not isinstance(base, int) or any(k == "ellipsis" for k, _ in ks) or any(k == "idx" and r is None for k, r in ks):
+                return None
+            consumed = sum(1 for k, _ in ks if k == "idx")
+            added = sum(1 for k, _ in ks if k == "new") + (max(r for _, r in tens) if tens else 0)
+            return base - consumed + added
+
+        def store_subscript(self, target, value, env, stmt):
+            self.eval_Subscript(target, env)
+
+    n = 0
+    for ci in classes:
+        for m, fi in ci.methods.items():
+            if not any(isinstance(x, ast.Subscript) and isinstance(x.slice, ast.Tuple) for x in ast.walk(fi.node)):
+                continue
+            it = IRank(fi)
+            it.repo = repo
+            try:
+                it.run({})
+            except Exception:
+                continue
+            for node, ranks in it.sites.values():
+                n += 1
+                if len(set(ranks)) > 1:
+                    rep.violation("INDEX-BROADCAST", fi, node, f"index tensors of ranks {ranks} are used together: they broadcast to a cross product, so each selected row is addressed at the positions computed for all selected rows (a (m, 1) index from torch.nonzero(..., as_tuple=False) must be squeezed, or unbound into columns)", node=node)
+                else:
+                    rep.ok("INDEX-BROADCAST", fi, node, f"index tensors of equal rank {ranks}: element-wise pairing", node=node, nontrivial=False)
+    rep.ok("INDEX-BROADCAST", "kaira::components", f"{len(classes)} classes scanned for subscripts with several index tensors", f"{n} site(s) with derived ranks", nontrivial=False)
+    return n + 1
+
+
 def rule_zero_path(repo: Repo, rep: Report) -> int:
     """batched vs single-item zero-signal test of the power constraints uses the same quantity."""
     from .c08 import CBScaling, PW, cfg
@@ -507,6 +596,7 @@ def run(repo: Repo, rep: Report, tier: str) -> None:
     n += rule_state(repo, rep, classes)
     n += rule_tlist(repo, rep, classes)
     n += rule_zero_path(repo, rep)
+    n += rule_index_broadcast(repo, rep, classes)
     rep.floor("C20 rule instances", n, 85)
     rep.decided_clauses += [
         "no write through an alias of an input tensor in any component's forward / inverse / syndrome",
